@@ -12,6 +12,8 @@
 (*   k = "blank" | "text" (ind 0, does not start with ":") |               *)
 (*       "cont" (indented, so it does not start with ":" either) |         *)
 (*       "other" (`:foo: x`: starts with ":" but no field type matches)    *)
+(*       text / cont: sh = "colon" when the line contains a colon (it can  *)
+(*       close the directive of a field line that lacks its own colon)     *)
 (*   k = "field"  fk = reader selected by _field_types (first match wins): *)
 (*                     type param vartype var raises returns rtype         *)
 (*                sh = shape of the directive `:<directive>: value`        *)
@@ -27,26 +29,29 @@
 (***************************************************************************)
 EXTENDS Integers, Sequences, FiniteSets, TLC, Json
 
-CONSTANTS MaxLen, Alpha, Mode, MaxSecs, Variety, Emit
+CONSTANTS MaxLen, Alpha, Mode, MaxSecs, Variety, Emit, EmitMod
 
 VARIABLES lines, expect, sig, pcand, pc, offset, desc, params, ptypes, attrs, atypes, excs, ret, rtype, sections, crash
 vars == <<lines, expect, sig, pcand, pc, offset, desc, params, ptypes, attrs, atypes, excs, ret, rtype, sections, crash>>
 input == <<lines, expect, sig>>
 parsed == <<desc, params, ptypes, attrs, atypes, excs, ret, rtype>>
 
-Parents == {"none", "module", "class", "function", "init", "property", "tuplefn", "genfn"}
+\* aliasmod: a module in which every documented name is imported from a package that is not loaded (unresolvable alias)
+Parents == {"none", "module", "class", "function", "init", "property", "tuplefn", "genfn", "aliasmod"}
 FieldKinds == {"type", "param", "vartype", "var", "raises", "returns", "rtype"}
 Names == {"x", "y"}
 
 Blank == [k |-> "blank", fk |-> "-", sh |-> "-", nm |-> "-"]
 Text  == [k |-> "text", fk |-> "-", sh |-> "-", nm |-> "-"]
 Cont  == [k |-> "cont", fk |-> "-", sh |-> "-", nm |-> "-"]
+TextC == [k |-> "text", fk |-> "-", sh |-> "colon", nm |-> "-"]
+ContC == [k |-> "cont", fk |-> "-", sh |-> "colon", nm |-> "-"]
 Other == [k |-> "other", fk |-> "-", sh |-> "-", nm |-> "-"]
 Field(fk, sh, nm) == [k |-> "field", fk |-> fk, sh |-> sh, nm |-> nm]
 
 Mini == {Blank, Text, Cont, Field("param", "name", "x"), Field("param", "typed", "x"), Field("type", "name", "x"),
          Field("var", "name", "x"), Field("var", "empty", "-"), Field("returns", "bare", "-"), Field("rtype", "bare", "-"), Field("raises", "name", "x")}
-Core == Mini \cup {Other, Field("param", "name", "y"), Field("param", "bare", "-"), Field("param", "empty", "-"), Field("param", "open", "x"),
+Core == Mini \cup {Other, TextC, ContC, Field("returns", "open", "x"), Field("param", "name", "y"), Field("param", "bare", "-"), Field("param", "empty", "-"), Field("param", "open", "x"),
                    Field("param", "long", "x"), Field("type", "bare", "-"), Field("vartype", "name", "x"), Field("raises", "bare", "-"), Field("returns", "name", "x")}
 Rich == Core \cup {Field(fk, "open", "x") : fk \in FieldKinds} \cup {Field(fk, "empty", "-") : fk \in FieldKinds}
            \cup {Field("var", "name", "y"), Field("type", "name", "y"), Field("vartype", "name", "y"), Field("var", "typed", "x"), Field("rtype", "name", "x")}
@@ -58,8 +63,11 @@ L(i) == lines[i + 1]
 InRange(i) == i >= 0 /\ i < N
 StartsWithColon(ln) == ln.k \in {"field", "other"}         \* lines[i].startswith(":")
 IsBlank(ln) == ln.k = "blank"
-\* directive.split(" "): number of parts, validity
-Invalid(ln) == ln.sh = "open"                               \* line.split(":", 2) has fewer than three parts
+\* _parse_directive works on the CONSOLIDATED line: `_, directive, value = line.split(":", 2)`; directive.split(" ")
+HasColon(ln) == ln.k \in {"field", "other"} \/ ln.sh = "colon"
+\* fewer than three parts: the field line has no closing colon and no consolidated continuation line brings one
+Invalid(ln, body) == ln.sh = "open" /\ \A j \in 1..Len(body) : ~HasColon(L(body[j]))
+\* an "open" field closed by a later colon has the words up to that colon as extra directive parts: four or more
 Parts(ln) == CASE ln.sh = "bare" -> 1 [] ln.sh \in {"name", "empty"} -> 2 [] ln.sh = "typed" -> 3 [] OTHER -> 4
 NameOf(ln) == IF ln.sh = "empty" THEN "" ELSE ln.nm
 
@@ -89,7 +97,6 @@ Split(P, b) == IF b THEN pcand \cap P ELSE pcand \ P
 
 \* =========================================== the case space ===========================================================
 NoSig == [ann |-> FALSE, def |-> FALSE]
-SeqDocs == UNION {[1..n -> Alphabet] : n \in 1..MaxLen}
 CleandocFixedPoint(d) ==
   /\ d[1].k \notin {"blank", "cont"} /\ ~IsBlank(d[Len(d)])
   /\ (Len(d) > 1 => \E j \in 2..Len(d) : d[j].k \notin {"blank", "cont"})
@@ -148,8 +155,15 @@ RenderLines(st) ==
   IN [lines |-> r.lines, sig |-> r.sig,
       expect |-> <<SecRec("text", <<0>>, <<>>)>> \o sec("parameters") \o sec("attributes") \o sec("returns") \o sec("raises")]
 
+\* every cleandoc-stable sequence of 1..MaxLen classes (enumerated piecewise: first line, middle, last line), + the empty docstring
+SeqLines ==
+  \/ lines = <<Blank>>
+  \/ \E n \in 1..MaxLen : \E a \in {x \in Alphabet : x.k \notin {"blank", "cont"}} :
+       IF n = 1 THEN lines = <<a>>
+       ELSE \E z \in {x \in Alphabet : ~IsBlank(x)}, m \in [1..(n - 2) -> Alphabet] :
+              lines = <<a>> \o m \o <<z>> /\ CleandocFixedPoint(lines)
 InitSeq ==
-  /\ lines \in {d \in SeqDocs : CleandocFixedPoint(d)} \cup {<<Blank>>}
+  /\ SeqLines
   /\ sig = [j \in 1..Len(lines) |-> NoSig] /\ expect = <<>> /\ pcand = Parents
 InitStruct ==
   \E st \in Structs : /\ StructOK(st)
@@ -175,7 +189,7 @@ ReadParameter ==         \* _read_parameter
   /\ pc = "main" /\ offset < N /\ IsField(L(offset)) /\ L(offset).fk = "param"
   /\ LET ln == L(offset) c == Consolidate(offset) name == NameOf(ln) IN
      /\ Skip(c)
-     /\ IF Invalid(ln) \/ Parts(ln) \notin {2, 3} \/ Has(params, name) THEN UNCHANGED params
+     /\ IF Invalid(ln, c.body) \/ Parts(ln) \notin {2, 3} \/ Has(params, name) THEN UNCHANGED params
         ELSE LET tf == Lookup(ptypes, name)
                  ann == IF Parts(ln) = 3 THEN "inline" ELSE IF tf # -1 THEN "field" ELSE SigAnn(offset)
              IN params' = Append(params, El(offset, c.body, name, ann, IF ann = "field" THEN tf ELSE -1, SigDef(offset)))
@@ -185,7 +199,7 @@ ReadParameterType ==     \* _read_parameter_type
   /\ pc = "main" /\ offset < N /\ IsField(L(offset)) /\ L(offset).fk = "type"
   /\ LET ln == L(offset) c == Consolidate(offset) name == NameOf(ln) IN
      /\ Skip(c)
-     /\ IF Invalid(ln) \/ Parts(ln) # 2 THEN UNCHANGED <<ptypes, params>>
+     /\ IF Invalid(ln, c.body) \/ Parts(ln) # 2 THEN UNCHANGED <<ptypes, params>>
         ELSE /\ ptypes' = Append(ptypes, [name |-> name, tf |-> offset])
              /\ LET j == Find(params, name) IN
                 params' = IF j # 0 /\ params[j].ann = "none" THEN [params EXCEPT ![j].ann = "field", ![j].tf = offset] ELSE params
@@ -196,24 +210,27 @@ ReadParameterType ==     \* _read_parameter_type
 ReadAttribute ==
   /\ pc = "main" /\ offset < N /\ IsField(L(offset)) /\ L(offset).fk = "var"
   /\ LET ln == L(offset) c == Consolidate(offset) name == NameOf(ln) IN
-     IF Invalid(ln) \/ Parts(ln) # 2 THEN Skip(c) /\ UNCHANGED <<attrs, pcand>>
-     ELSE LET tf == Lookup(atypes, name) IN
-          IF tf = -1 /\ name = ""
-            THEN \E isnone \in BOOLEAN :
-                   /\ Split({"none"}, isnone) # {} /\ pcand' = Split({"none"}, isnone)
-                   /\ IF isnone THEN /\ Skip(c)
-                                     /\ attrs' = IF Has(attrs, name) THEN attrs ELSE Append(attrs, El(offset, c.body, name, "none", -1, "none"))
-                      ELSE /\ pc' = "crashed" /\ crash' = [exc |-> "ValueError", at |-> "attribute"] /\ UNCHANGED <<offset, attrs, sections>>
-          ELSE /\ Skip(c) /\ pcand' = pcand
-               /\ attrs' = IF Has(attrs, name) THEN attrs
-                           ELSE Append(attrs, El(offset, c.body, name, IF tf # -1 THEN "field" ELSE SigAnn(offset), tf, "none"))
+     IF Invalid(ln, c.body) \/ Parts(ln) # 2 THEN Skip(c) /\ UNCHANGED <<attrs, pcand>>
+     ELSE LET tf == Lookup(atypes, name)
+              add == IF Has(attrs, name) THEN attrs
+                     ELSE Append(attrs, El(offset, c.body, name, IF tf # -1 THEN "field" ELSE SigAnn(offset), tf, "none"))
+          IN IF tf # -1 \/ (Mode = "struct" /\ sig[offset + 1].ann) THEN Skip(c) /\ pcand' = pcand /\ attrs' = add
+             \* the look-up docstring.parent[name].annotation: "" raises ValueError with any parent; a plain name that is an
+             \* unresolvable alias of the parent raises AliasResolutionError
+             ELSE \E cls \in {"none", "alias", "other"} :
+                    LET P == CASE cls = "none" -> {"none"} [] cls = "alias" -> {"aliasmod"} [] OTHER -> Parents \ {"none", "aliasmod"}
+                        o == CASE cls = "none" -> "" [] cls = "alias" -> (IF name = "" THEN "ValueError" ELSE "AliasResolutionError")
+                               [] OTHER -> IF name = "" THEN "ValueError" ELSE ""
+                    IN /\ pcand \cap P # {} /\ pcand' = pcand \cap P
+                       /\ IF o = "" THEN Skip(c) /\ attrs' = add
+                          ELSE /\ pc' = "crashed" /\ crash' = [exc |-> o, at |-> "attribute"] /\ UNCHANGED <<offset, attrs, sections>>
   /\ UNCHANGED <<input, desc, params, ptypes, atypes, excs, ret, rtype>>
 
 ReadAttributeType ==     \* _read_attribute_type
   /\ pc = "main" /\ offset < N /\ IsField(L(offset)) /\ L(offset).fk = "vartype"
   /\ LET ln == L(offset) c == Consolidate(offset) name == NameOf(ln) IN
      /\ Skip(c)
-     /\ IF Invalid(ln) \/ Parts(ln) # 2 THEN UNCHANGED <<atypes, attrs>>
+     /\ IF Invalid(ln, c.body) \/ Parts(ln) # 2 THEN UNCHANGED <<atypes, attrs>>
         ELSE /\ atypes' = Append(atypes, [name |-> name, tf |-> offset])
              /\ LET j == Find(attrs, name) IN
                 attrs' = IF j # 0 /\ attrs[j].ann = "none" THEN [attrs EXCEPT ![j].ann = "field", ![j].tf = offset] ELSE attrs
@@ -223,14 +240,14 @@ ReadException ==         \* _read_exception
   /\ pc = "main" /\ offset < N /\ IsField(L(offset)) /\ L(offset).fk = "raises"
   /\ LET ln == L(offset) c == Consolidate(offset) IN
      /\ Skip(c)
-     /\ excs' = IF Invalid(ln) \/ Parts(ln) # 2 THEN excs ELSE Append(excs, El(offset, c.body, NameOf(ln), "inline", -1, "none"))
+     /\ excs' = IF Invalid(ln, c.body) \/ Parts(ln) # 2 THEN excs ELSE Append(excs, El(offset, c.body, NameOf(ln), "inline", -1, "none"))
   /\ UNCHANGED <<input, pcand, desc, params, ptypes, attrs, atypes, ret, rtype>>
 
 ReadReturn ==            \* _read_return: the last :returns: wins; annotation = rtype seen so far, else the parent's
   /\ pc = "main" /\ offset < N /\ IsField(L(offset)) /\ L(offset).fk = "returns"
   /\ LET ln == L(offset) c == Consolidate(offset) IN
      /\ Skip(c)
-     /\ ret' = IF Invalid(ln) THEN ret
+     /\ ret' = IF Invalid(ln, c.body) THEN ret
                ELSE <<El(offset, c.body, "", IF rtype # -1 THEN "field" ELSE IF Mode = "seq" THEN "p" ELSE SigAnn(offset), rtype, "none")>>
   /\ UNCHANGED <<input, pcand, desc, params, ptypes, attrs, atypes, excs, rtype>>
 
@@ -238,7 +255,7 @@ ReadReturnType ==        \* _read_return_type
   /\ pc = "main" /\ offset < N /\ IsField(L(offset)) /\ L(offset).fk = "rtype"
   /\ LET ln == L(offset) c == Consolidate(offset) IN
      /\ Skip(c)
-     /\ IF Invalid(ln) THEN UNCHANGED <<rtype, ret>>
+     /\ IF Invalid(ln, c.body) THEN UNCHANGED <<rtype, ret>>
         ELSE /\ rtype' = offset
              /\ ret' = IF ret # <<>> THEN <<[ret[1] EXCEPT !.ann = "field", !.tf = offset]>> ELSE ret
   /\ UNCHANGED <<input, pcand, desc, params, ptypes, attrs, atypes, excs>>
@@ -262,9 +279,10 @@ Spec == Init /\ [][Next]_vars
 Done == pc = "done"
 Crashed == pc = "crashed"
 Final == Done \/ Crashed
-KnownCrashSites == {<<"ValueError", "attribute">>}
+KnownCrashSites == {<<"ValueError", "attribute">>, <<"AliasResolutionError", "attribute">>}
 NoCrash == ~Crashed
-NoValueErrorEmptyAttributeName == ~(Crashed /\ crash.at = "attribute")       \* violated in DocSphinx_defect.cfg
+NoValueErrorEmptyAttributeName == ~(Crashed /\ crash.exc = "ValueError")            \* violated in DocSphinx_defect.cfg
+NoAliasResolutionErrorInAttributes == ~(Crashed /\ crash.exc = "AliasResolutionError")    \* violated in DocSphinx_defect.cfg
 NoCrashBeyondKnown == Crashed => <<crash.exc, crash.at>> \in KnownCrashSites
 Progress == [][(pc = "main" /\ pc' = "main") => offset' > offset]_vars
 OffsetBounded == offset <= N
@@ -285,8 +303,14 @@ PlainText == (Done /\ NoSyntax) => sections = <<SecRec("text", RStripBlank(SeqFr
 \* C13: per kind, the documented things with their names, type sources and description lines
 ParsesBack == (Mode = "struct" /\ Final) => (Done /\ sections = expect)
 
+\* every state is checked against the invariants; the replay harness gets the final states whose checksum is 0 mod EmitMod
+LineCode(ln) == (CASE ln.k = "blank" -> 1 [] ln.k = "text" -> 2 [] ln.k = "cont" -> 3 [] ln.k = "other" -> 5 [] OTHER -> 7)
+                 + (CASE ln.fk \in {"param", "-"} -> 0 [] ln.fk \in {"type", "var"} -> 17 [] ln.fk = "returns" -> 19 [] OTHER -> 23)
+                 + (CASE ln.sh \in {"name", "-"} -> 0 [] ln.sh = "empty" -> 29 [] OTHER -> 31)
+RECURSIVE Checksum(_, _)
+Checksum(j, acc) == IF j > Len(lines) THEN acc ELSE Checksum(j + 1, (acc * 31 + j * LineCode(lines[j])) % 1000003)
 EmitCase ==
-  (Emit /\ Final) =>
+  (Emit /\ Final /\ (EmitMod = 1 \/ Checksum(1, Len(lines)) % EmitMod = 0)) =>
      IF Mode = "seq"
        THEN PrintT(<<"CASE", ToJson([lines |-> lines, opts |-> [warn_unknown_params |-> "U"], pcand |-> pcand, excl |-> {}, outcome |-> pc,
                                      crash |-> crash, sections |-> sections])>>)
